@@ -500,7 +500,7 @@ func (g *graph) addBranch(startNode string, branch *GraphBranch, skipData bool) 
 	}
 
 	if !skipData {
-		for endNode := range branch.endNodes {
+		for _, endNode := range sortedKeys(branch.endNodes) {
 			if _, ok := g.nodes[endNode]; !ok {
 				if endNode != END {
 					return fmt.Errorf("branch end node '%s' needs to be added to graph first", endNode)
